@@ -5,15 +5,20 @@ as `transfer`, _TypeMap.__or__ as `join`, GraphVisitor._visit_internal as the fu
 semantics in which every value has a tag; resolver and operator semantics are Section variables.
 Theorems (coq/Properties/C19): types_sound / expr_types_sound (any in_/out maps closed under the
 dataflow inclusions are sound along every execution, for variables all of whose bindings are typed),
-certificate_sound (the boolean check of those inclusions), unknown_reports_nothing, and two refuted
-witnesses of the known finding (no representation of 'unknown').
+certificate_sound (the boolean check of those inclusions), unknown_reports_nothing, two refuted
+witnesses of the known finding (no representation of 'unknown'), fndefs_reach_call_sites and
+closure_types_reach_callee_entry (coq/Types/Closure.v: the types at a call site of a local function are
+in its final CLOSURE_TYPES and, for call sites analysed before the callee, in the callee's entry state).
 
 Ties, on every run, on generated functions analysed by the REAL malt.pyct pipeline with a scripted,
 truthful resolver whose answers are logged:
    * correspondence: the model worklist run on the exported CFG with the logged answers reproduces the
      implementation's in_/out maps at every node;
    * certificate: `sol_ok` evaluated in Coq on the implementation's own in_/out maps holds, i.e. the
-     hypotheses of types_sound hold for that function (for its clean variables).
+     hypotheses of types_sound hold for that function (for its clean variables);
+   * closure certificate: `clos_ok` evaluated in Coq on, per local function, the CLOSURE_TYPES annotation at
+     the start of its analysis, the final annotation and in_ of its entry node, and the out map of every
+     call site (translate/c19_export.closure_case).
 Property-level oracle (CPython): an instrumented twin of each function is run on its argument vectors;
 every evaluation of an annotated expression, every binding of an annotated target / parameter and the
 captured variables at every entry of a local function are compared with anno.Static.TYPES /
@@ -35,6 +40,8 @@ SIDE = L.SIDE
 ALIAS = L.ALIAS
 STAR = L.STAR
 NLJOIN = L.NLJOIN
+LATE = L.LATE
+FWD = L.FWD
 DIVERGE = 'c19-analysis-diverges-on-growing-tuple-types'
 OSC = 'c19-walk-oscillates-after-non-monotone-step'
 
@@ -148,6 +155,31 @@ def coq_fn_cases(cases, run):
     return bad
 
 
+def coq_closure_cases(cases, run):
+    """closure certificate (coq/Types/Closure.v) on every analysed program with a local function -> failing ids | None"""
+    if not cases:
+        return []
+    shards = [cases[i:i + 60] for i in range(0, len(cases), 60)]
+
+    def one(a):
+        i, sh = a
+        body = ['From Coq Require Import List Arith Bool.', 'Import ListNotations.',
+                'Require Import MV.Types.Infer MV.Types.Closure.',
+                'Definition cases : list ccase := [', ';\n'.join(sh), '].', 'Eval vm_compute in cfailing cases.']
+        return vlib.coq_eval('C19', 'closcases_%d' % i, '\n'.join(body), timeout=300)
+
+    with ThreadPoolExecutor(max_workers=8) as ex:
+        results = list(ex.map(one, enumerate(shards)))
+    bad = []
+    for rc, out in results:
+        r = vlib.parse_coq_list_of_nat(out) if rc == 0 else None
+        if r is None:
+            run.note('coq evaluation of C19 closure cases failed: ' + out[-400:])
+            return None
+        bad += r
+    return bad
+
+
 def describe(f):
     if f['kind'] == 'path':
         return ('executed transition line %s -> line %s (`%s`) is not a path of the CFG the type inference walked' % (
@@ -160,18 +192,20 @@ def describe(f):
 def check(run):
     quick = run.tier == 'quick'
     nprog = 260 if quick else 3000
+    nsib = 40 if quick else 450          # additional programs of the sibling-call stream
     tmp = vlib.ensure_dir(os.path.join(vlib.BUILD, 'tmp', str(os.getpid())))
     os.environ['TMPDIR'] = tmp
     run.rule = ('seeded random functions def f(a, b, c) over int/float/bool/str/list/tuple values (translate/c19_lab.Gen: '
                 'assignments, tuple/list unpacking, if/else, while, for, external typed calls, operators, subscripts, nested '
-                'functions reading/rebinding captured variables, calls through aliases; 40% with constructs the inferrer '
+                'functions reading/rebinding captured variables, calls through aliases, local functions calling other local '
+                'functions of the same scope directly and from nested functions, before and after the callee\'s def; 40% with constructs the inferrer '
                 'cannot type and a resolver that declines some kinds of questions) x 1-3 argument vectors; '
                 'non-trivial = function with a branch, loop or nested function; distinct by source text')
     try:
         generate()
     except Exception as e:   # noqa
         run.note('generate failed: %s' % e)
-    vlib.standard_proof_step(run, ['Types/InferCheck.vo', 'Types/InferCertProofs.vo', 'Types/FnDefs.vo'])
+    vlib.standard_proof_step(run, ['Types/InferCheck.vo', 'Types/InferCertProofs.vo', 'Types/FnDefs.vo', 'Types/Closure.vo'])
     rnd = random.Random(run.seed * 104729 + 19)
     items = [(name, src, vecs, None, 'corpus') for name, src, vecs in corpus()]
     # the order in which Analyzer.visit_node folds the predecessors is the iteration order of a WeakSet (memory
@@ -195,13 +229,21 @@ def check(run):
             dec = decliner(rnd)
         src, vecs = L.gen_case(rnd, opts)
         items.append(('gen%d' % i, src, vecs, dec, stream))
+    # local functions that call other local functions of the same scope (own random stream: the programs above
+    # do not depend on how many of these there are)
+    sibrnd = random.Random(run.seed * 7919 + 1919)
+    for i in range(nsib):
+        src, vecs = L.gen_case(sibrnd, L.GOpts(untyped=False, nested=True, sibling=True, max_stmts=sibrnd.choice([3, 6, 10])))
+        items.append(('sib%d' % i, src, vecs, None, 'sibling'))
 
     cases = []
     fn_cases = []
     fn_meta = {}
+    clos_cases = []
+    clos_meta = {}
     meta = {}
     unexplained = []
-    known = {UNTYPED: 0, SIDE: 0, ALIAS: 0, STAR: 0, NLJOIN: 0, DIVERGE: 0, OSC: 0}
+    known = {UNTYPED: 0, SIDE: 0, ALIAS: 0, STAR: 0, NLJOIN: 0, LATE: 0, FWD: 0, DIVERGE: 0, OSC: 0}
     hist = {}
     seen_src = set()
     stats = {'programs': 0, 'runs': 0, 'runs_raising': 0, 'annotated_nodes': 0, 'events_checked': 0,
@@ -253,9 +295,12 @@ def check(run):
                 run.count(len(r2['runs']))
                 fails += [dict(f, repetitions=2 * reps_loop) for f in r2['fails']]
         for f in fails:
-            if f['cause'] in (UNTYPED, SIDE, ALIAS, STAR, NLJOIN):
+            if f['cause'] in (UNTYPED, SIDE, ALIAS, STAR, NLJOIN, LATE, FWD):
                 known[f['cause']] += 1
-                run.violation(describe(f), {}, classify=f['cause'])
+                if known[f['cause']] == 1:
+                    run.violation(describe(f), {'program': src, 'argument_vectors': repr(vecs),
+                                                'failure': dict(f, resolver_declines=dec[1] if dec else [], local_args_unknown=lau),
+                                                'replay': 'bin/check C19 --replay <this file>'}, classify=f['cause'])
             else:
                 unexplained.append((describe(f), src, vecs, dict(f, resolver_declines=dec[1] if dec else [], local_args_unknown=lau)))
         if stats['programs'] % 37 == 1:
@@ -267,6 +312,12 @@ def check(run):
         # certificate of the reaching function definitions the inference consumed
         fn_meta[len(fn_cases)] = (src, vecs)
         fn_cases.append(X.fn_case(r['prog'], r['an'], len(fn_cases)))
+        # closure certificate: call-site types arrive in the callee's closure types and entry state
+        if max([len(v) for v in r['an'].types.values()] or [0]) <= 64:
+            cc = X.closure_case(r['prog'], r['an'], len(clos_cases))
+            if cc is not None:
+                clos_meta[len(clos_cases)] = (src, vecs)
+                clos_cases.append(cc)
         # case for the model
         try:
             if max([len(v) for v in r['an'].types.values()] or [0]) > 64:
@@ -288,8 +339,10 @@ def check(run):
 
     corr_bad, cert_bad = coq_cases(cases, run)
     fn_bad = coq_fn_cases(fn_cases, run)
+    clos_bad = coq_closure_cases(clos_cases, run)
     run.extra['model_cases'] = len(cases)
     run.extra['fndefs_certificates'] = len(fn_cases)
+    run.extra['closure_certificates'] = len(clos_cases)
 
     seen = set()
     for what, src, vecs, f in unexplained:
@@ -314,13 +367,20 @@ def check(run):
         elif fn_bad:
             broken.append('DEFINED_FNS_IN does not satisfy the reaching-definition inequations (fn_ok false, theorem '
                           'fndefs_reach_call_sites no longer applies) for %d function(s), e.g.\n%s' % (len(fn_bad), fn_meta[fn_bad[0]][0]))
+        if clos_bad is None:
+            broken.append('closure certificate evaluation failed')
+        elif clos_bad:
+            broken.append('the CLOSURE_TYPES / entry maps of local functions do not satisfy the inclusions of '
+                          'closure_types_reach_callee_entry (clos_ok false: a call site\'s types are missing from the callee\'s '
+                          'closure types or entry state) for %d function(s), e.g.\n%s' % (len(clos_bad), clos_meta[clos_bad[0]][0]))
         if stats['exported'] < 0.2 * max(1, stats['programs']):
             broken.append('the exporter recognises only %d of %d functions (StmtInferrer grew visitors the model does not know?)'
                           % (stats['exported'], stats['programs']))
     if broken and not unexplained:
         # search: the functions on which the tie broke, with more argument vectors and a fully answering resolver
         found = None
-        todo = [meta[i] for i in sorted(set((corr_bad or []) + (cert_bad or [])))] + [fn_meta[i] for i in (fn_bad or [])]
+        todo = [meta[i] for i in sorted(set((corr_bad or []) + (cert_bad or [])))] + [fn_meta[i] for i in (fn_bad or [])] + \
+            [clos_meta[i] for i in (clos_bad or [])]
         srnd = random.Random(run.seed + 7)
         for src, vecs in todo[:60]:
             more = [[srnd.choice(L.ARG_POOL) for _ in L.PARAMS] for _ in range(6)]
@@ -349,8 +409,9 @@ def check(run):
         'the scripted resolver is truthful: literals/external names by type(), arguments and external call results from '
         'the observed runs plus type-level evaluation on sample values, operators by evaluation on sample values',
         'tuple tags are structural (the tuple of the element tags), typing.Any covers every value, a typing Callable covers callables',
-        'the theorems cover one function graph without local functions; closure types and calls of local functions are '
-        'checked by the run-time oracle only',
+        'types_sound covers one function graph without local functions; for local functions the closure certificate '
+        '(closure_types_reach_callee_entry) ties call-site maps to the callee\'s closure types and entry state, the types '
+        'inside local functions and at their calls are checked by the run-time oracle',
         'that the worklist terminates with maps closed under the inclusions is validated per generated function '
         '(certificate evaluated in Coq), not proved']
     try:
